@@ -341,6 +341,18 @@ class LayoutTyper(Structured):
                             'index tuple built over %s applied to array laid out by %s' % (show(sv.a), show(base.a)))
                         return V('arr', ('marginalize', base.a, sv.b), deps=base.deps)
                 iv = self.ev(idx, env, quiet)
+                if iv.kind == 'unk' and isinstance(idx, ast.Call) and isinstance(idx.func, ast.Name) and idx.func.id == 'tuple' and len(idx.args) == 1:
+                    iv = self.ev(idx.args[0], env, quiet)
+                if iv.kind == 'newaxes':
+                    E, X = iv.a, iv.b
+                    lay = base.a
+                    ok = isinstance(lay, tuple) and lay[0] == 'project' and lay[2][0] == 'canonical' and lay[2][1] == E \
+                        and same_attr_set(lay[2][2], ('attrsof', lay[1])) and same_attr_set(X, ('attrsof', lay[1]))
+                    rep('index-by-name', e, ok, 'length-1 axes inserted for the attributes of %s outside %s into an array laid out by %s (its axes '
+                        'must be exactly those attributes, in the order of %s)' % (show(E), show(X), show(lay), show(E)))
+                    if ok:
+                        return V('arr', E, deps=base.deps, flags={'partial'})
+                    return V('arr', ('positional', 'axes inserted into a foreign layout'), deps=base.deps)
                 if iv.kind == 'slices':
                     ok = iv.a == base.a
                     rep('index-by-name', e, ok,
@@ -356,6 +368,12 @@ class LayoutTyper(Structured):
             c = self.complement(e, env)
             if c is not None:
                 return V('attrs', c)
+            # [sorted(ax).index(i) for i in ax]: the RANK of every looked-up position among them
+            if len(e.generators) == 1 and not e.generators[0].ifs and isinstance(e.generators[0].target, ast.Name) and \
+                    U(e.elt) == 'sorted(%s).index(%s)' % (U(e.generators[0].iter), e.generators[0].target.id):
+                av = self.axis_value(e.generators[0].iter, env)
+                if av.kind == 'axes':
+                    return V('rank', av.a, av.b)
             return self.ev_slices(e, env)
         if isinstance(e, ast.Call):
             return self.ev_call(e, env, quiet, rep)
@@ -385,6 +403,15 @@ class LayoutTyper(Structured):
         evname = t.comparators[0]
         if neg:
             body, orelse = orelse, body
+        if U(body) in ('slice(None)', 'slice(None, None)', 'slice(None, None, None)') and U(orelse) in ('np.newaxis', 'None'):
+            # (slice(None) if a in X else np.newaxis for a in E): keeps the axes of X, inserts a length-1 axis for every other attribute of E
+            it = g.iter
+            E = self.dom_term(it, env)
+            if E is None and isinstance(it, ast.Attribute) and it.attr == 'attrs':
+                E = self.dom_term(it.value, env)
+            if E is not None:
+                return V('newaxes', E, self.attrs_term(evname, env))
+            return UNK
         if not (isinstance(body, ast.Subscript) and U(body.value) == U(evname) and U(body.slice) == a):
             return UNK
         if U(orelse) not in ('slice(None)', 'slice(None, None)', 'slice(None, None, None)'):
@@ -522,6 +549,12 @@ class LayoutTyper(Structured):
                     'dict view becomes a 0-d object array holding the container, no name matches and NOTHING is aggregated (callers pass sets); '
                     'materialise it with list(..) first' % (show(D), U(e), U(y)))
                 return V('mask', D, ('expr', 'nothing'))
+        if kind == 'np' and name == 'argsort' and len(e.args) == 1 and not kw:
+            av = self.axis_value(e.args[0], env)
+            if av.kind == 'axes':
+                return V('order', av.a, av.b)         # argsort of looked-up positions: which own axis comes first, second, ... in the other domain
+            if av.kind == 'order':
+                return V('rank', av.a, av.b)          # argsort of that: the rank of every own axis
         if kind == 'np' and name in ('flatnonzero',) and len(e.args) == 1:
             m = self.ev(e.args[0], env, quiet)
             if m.kind == 'mask':
@@ -546,7 +579,7 @@ class LayoutTyper(Structured):
                 if D is not None:
                     return V('axes', D, self.attrs_term(a.generators[0].iter, env))
             inner = self.ev(a, env, quiet)
-            if inner.kind in ('axes', 'attrs', 'slices', 'seq'):
+            if inner.kind in ('axes', 'attrs', 'slices', 'seq', 'newaxes', 'rank', 'order'):
                 return inner
             return V('seq')
         if kind == 'fn' and name in ('logsumexp', 'amax', 'amin') and e.args and 'axis' in kw:
@@ -836,8 +869,27 @@ class LayoutTyper(Structured):
             a = x.args[0].args[0]
             if U(a) == U(other) or U(a) == U(expand(other, self.defs)):
                 return True
-            return other_val.kind == 'axes' and self.attrs_term(a, env) == other_val.b
+            if other_val.kind in ('rank', 'order'):
+                av_ = self.axis_value(a, env)             # range(len(ax)) against the ranks / argsort of that very lookup
+                if av_.kind in ('axes', 'rank', 'order') and (av_.a, av_.b) == (other_val.a, other_val.b):
+                    return True
+            return other_val.kind in ('axes', 'rank', 'order') and self.attrs_term(a, env) == other_val.b
 
+        for perm, rng, rng_is_src in ((dv, src, True), (sv, dst, False)):
+            if perm.kind in ('rank', 'order') and not padded and is_leading_range(rng, dst if rng_is_src else src, perm):
+                # own axes reordered among themselves into the order they have in E
+                E, S = perm.a, perm.b
+                want = 'rank' if rng_is_src else 'order'
+                ok = S == ('attrsof', base) and perm.kind == want
+                rep('axis-by-name', e, ok,
+                    'own axes of an array laid out by %s reordered into their order in %s: moveaxis(%s) needs the %s of the looked-up positions '
+                    '%s.axes(%s) on that side, the source gives their %s%s' % (
+                        show(base), show(E), 'range -> destinations' if rng_is_src else 'sources -> range',
+                        'ranks' if want == 'rank' else 'argsort', show(E), show(S), 'ranks' if perm.kind == 'rank' else 'argsort',
+                        '' if perm.kind == want else ' (the INVERSE permutation: right only when it is its own inverse, e.g. two attributes)'))
+                if ok:
+                    return V('arr', ('project', base, ('canonical', E, ('attrsof', base))), deps=arr.deps)
+                return V('arr', ('positional', 'moveaxis by the inverse permutation'), deps=arr.deps)
         if dv.kind == 'axes' and is_leading_range(src, dst, dv):
             # V : D0 (its leading axes are D0's attributes); destination = E.axes(attrs(D0))
             E, S = dv.a, dv.b
@@ -870,6 +922,16 @@ class LayoutTyper(Structured):
         if ax is None:
             return V('arr', ('positional', 'reversed axes'), deps=arr.deps)
         av = self.axis_value(ax, env)
+        if av.kind in ('rank', 'order'):
+            ok = av.b == ('attrsof', arr.a) and av.kind == 'order'
+            rep('axis-by-name', e, ok,
+                'own axes of an array laid out by %s reordered into their order in %s: transpose(axes) lists for every NEW position the old axis '
+                '(the argsort of the looked-up positions); the source gives their %s%s' % (
+                    show(arr.a), show(av.a), 'argsort' if av.kind == 'order' else 'ranks',
+                    '' if av.kind == 'order' else ' (the INVERSE permutation: right only when it is its own inverse, e.g. two attributes)'))
+            if ok:
+                return V('arr', ('project', arr.a, ('canonical', av.a, ('attrsof', arr.a))), deps=arr.deps)
+            return V('arr', ('positional', 'transpose by the inverse permutation'), deps=arr.deps)
         if av.kind == 'axes':
             ok = av.a == arr.a
             rep('axis-by-name', e, ok, 'transpose by %s.axes(%s) of an array laid out by %s'
